@@ -14,7 +14,11 @@ RtL1(r)  == /\ r.parsed.k # "panic"
             /\ RoundTripOk(r.ast, r.lim, r.parsed)
             /\ (Nest(Show(r.ast)) <= r.lim => r.same)
             /\ (Nest(Show(r.ast)) > r.lim => r.parsed = Err)
-RtL2(r)  == r.lex => (r.toks = Show(r.ast) /\ PegParse(r.toks, r.lim, NoAtoms) = r.parsed)
+\* lines of the string-value family also carry the value's characters and the characters of its printed text
+HasLex(r) == "vc" \in DOMAIN r
+LexL2(r)  == HasLex(r) => (JsonQuote(r.vc) = r.vt /\ ScanQuoted(r.vt \o <<")">>) = Len(r.vt) + 1
+                          /\ RefQuotedEnd(r.vt \o <<")">>) = Len(r.vt) + 1)
+RtL2(r)  == (r.lex => (r.toks = Show(r.ast) /\ PegParse(r.toks, r.lim, NoAtoms) = r.parsed)) /\ LexL2(r)
 PrecL1(r) == r.parsed.k # "panic" /\ PrecedenceOk(r.toks, r.lim, NoAtoms, r.parsed)
 PrecL2(r) == PegParse(r.toks, r.lim, NoAtoms) = r.parsed
 
